@@ -4,7 +4,8 @@
 // the sender's full JID; the behaviour decides when a stanza is delivered and which fault the
 // network applies to the data block at the head of the channel.
 //
-// Behaviour: {"n":3,"size":12000,"bs":4096,"sender":"real"|"script","steps":[{"a":"Offer"},
+// Behaviour: {"n":3,"size":12000,"bs":4096,"sender":"real"|"script","ann":"both|size|hash|none",
+//             "steps":[{"a":"Offer"},
 //             {"a":"RDeliver"},{"a":"SDeliver"},{"a":"Fault","k":"Dup"},{"a":"Inject","w":"from"},
 //             {"a":"Burst","k":65535}, ...]}
 // "sender":"script": the sending side is the specification's sender transcribed into the harness
@@ -68,6 +69,7 @@ struct ScriptSender {
     QByteArray file;
     int bs = 4096;
     QByteArray md5;
+    bool annSize = true, annHash = true;  // what the offer announces
 
     QString freshId() { return QStringLiteral("s%1").arg(nextId++); }
 
@@ -76,8 +78,12 @@ struct ScriptSender {
         state = "Offer";
         QXmppTransferFileInfo info;
         info.setName("c19.bin");
-        info.setSize(file.size());
-        info.setHash(md5);
+        if (annSize) {
+            info.setSize(file.size());
+        }
+        if (annHash) {
+            info.setHash(md5);
+        }
         QXmppDataForm form;
         form.setType(QXmppDataForm::Form);
         QXmppDataForm::Field f(QXmppDataForm::Field::ListSingleField);
@@ -172,9 +178,13 @@ struct Exec {
     int lostReplies = 0;    // replies addressed to somebody else than the sender
     bool offered = false;
 
-    Exec(Ctx &c, const QByteArray &f, int blockSize, bool scriptSender, quint64 seed)
+    bool annSize = true, annHash = true;  // what the offer announces about the file
+
+    Exec(Ctx &c, const QByteArray &f, int blockSize, bool scriptSender, quint64 seed, const QString &ann)
         : ctx(c), file(f), bs(blockSize), script(scriptSender), rng(seed)
     {
+        annSize = ann == "both" || ann == "size";
+        annHash = ann == "both" || ann == "hash";
         TestClient::resetIdCounter();
         b = std::make_unique<TestClient>(TestClient::NoExtensions, kReceiverJid);
         isolateLogger(b.get());
@@ -197,6 +207,8 @@ struct Exec {
             ss.file = file;
             ss.bs = bs;
             ss.md5 = QCryptographicHash::hash(file, QCryptographicHash::Md5);
+            ss.annSize = annSize;
+            ss.annHash = annHash;
         } else {
             a = std::make_unique<TestClient>(TestClient::NoExtensions, kSenderJid);
             isolateLogger(a.get());
@@ -278,10 +290,16 @@ struct Exec {
         }
         sendBuf.setData(file);
         sendBuf.open(QIODevice::ReadOnly);
+        // sendFile(jid, device, fileInfo): the application says what it knows about the data;
+        // size and hash left unset = generated / streamed data of unknown length
         QXmppTransferFileInfo info;
         info.setName("c19.bin");
-        info.setSize(file.size());
-        info.setHash(QCryptographicHash::hash(file, QCryptographicHash::Md5));
+        if (annSize) {
+            info.setSize(file.size());
+        }
+        if (annHash) {
+            info.setHash(QCryptographicHash::hash(file, QCryptographicHash::Md5));
+        }
         sJob = ma->sendFile(kReceiverJid, &sendBuf, info, kSid);
         if (sJob) {
             QObject::connect(sJob.data(), &QXmppTransferJob::finished, sJob.data(), [this]() { ++sFinished; });
@@ -499,8 +517,9 @@ void runBehaviour(Ctx &ctx, const QString &caseId, const QJsonObject &beh, int i
     const QByteArray file = randomBytes(size, seed);
     const bool smallFile = size <= (1 << 20);
 
-    ctx.reset(caseId, { { "n", n }, { "size", double(size) }, { "bs", bs }, { "sender", script ? "script" : "real" } });
-    Exec x(ctx, file, bs, script, seed ^ 0x9e3779b97f4a7c15ULL);
+    const QString ann = beh["ann"].toString("both");
+    ctx.reset(caseId, { { "n", n }, { "size", double(size) }, { "bs", bs }, { "sender", script ? "script" : "real" }, { "ann", ann } });
+    Exec x(ctx, file, bs, script, seed ^ 0x9e3779b97f4a7c15ULL, ann);
 
     auto emitStep = [&](QJsonObject ev) {
         ev["o"] = x.observe(smallFile);
